@@ -12,6 +12,7 @@ decorators that provide rounding
 __all__ = ['deep_round', 'shallow_round', 'simple_round']
 #FIXME: these seem *slow*... and a bit convoluted.  Maybe rewrite as classes?
 unicode = str #PYTHON3
+from collections.abc import Mapping
 
 def deep_round_factory(tol):
   """helper function for deep_round (a factory for deep_round functions)"""
@@ -24,6 +25,7 @@ def deep_round_factory(tol):
       if isinstance(j, float): _args[i] = round(j, tol) # don't round int
       elif isinstance(j, (str, unicode, type(BaseException()))): continue
       elif isinstance(j, dict): _args[i] = dict(zip(j.keys(), deep_round(*j.values())[0])) # keys need not be str
+      elif isinstance(j, Mapping): continue # (iterates over its keys: can't be rebuilt from them)
       elif isiterable(j) and not hasattr(j, '__next__'): # (not an iterator)
         jtype = type(j)
         try: _args[i] = jtype(deep_round(*j)[0])
@@ -32,6 +34,7 @@ def deep_round_factory(tol):
       if isinstance(j, float): _kwds[i] = round(j, tol)
       elif isinstance(j, (str, unicode, type(BaseException()))): continue
       elif isinstance(j, dict): _kwds[i] = dict(zip(j.keys(), deep_round(*j.values())[0])) # keys need not be str
+      elif isinstance(j, Mapping): continue # (iterates over its keys: can't be rebuilt from them)
       elif isiterable(j) and not hasattr(j, '__next__'): # (not an iterator)
         jtype = type(j)
         try: _kwds[i] = jtype(deep_round(*j)[0])
@@ -148,7 +151,7 @@ def shallow_round_factory(tol):
   """helper function for shallow_round (a factory for shallow_round functions)"""
   def around(iterable, tol):
     if isinstance(iterable, float): return round(iterable, tol)
-    if isinstance(iterable, (str, unicode)): return iterable # not a container
+    if isinstance(iterable, (str, unicode, Mapping)): return iterable # not a container (or iterates over its keys)
     from klepto.tools import isiterable
     if not isiterable(iterable) or hasattr(iterable, '__next__'): return iterable
     itype = type(iterable)
